@@ -12,7 +12,7 @@ ID = "C16"
 TITLE = "Leaf results are serialised within the specification's value domains"
 BOUNDS = {
     "quick": "every value of the gen/values.py menu (208) + each enum's own names/internal values/members, x 5 built-in "
-             "scalars and 11 enum definitions, x {coerce_output_value, serialize, execute_sync as field T, T!, item of [T], [T!]}",
+             "scalars, 11 hand-written and 89 generated enum definitions (every assignment of {absent, a member name, an int} to 2 and 3 members), x {coerce_output_value, serialize, execute_sync as field T, T!, item of [T], [T!]}",
     "thorough": "quick + every ordered pair [a, b] and 1-tuple/dict wrapping of menu values as a resolver result "
                 "(direct, field T and item of [T!])",
 }
